@@ -80,6 +80,8 @@ TDiff ==
         /\ status' = IF Rec.diff = <<>> THEN "ok" ELSE "run"
         /\ ctx' = [ctx EXCEPT !.d = Rec.diff, !.n = Len(Rec.diff)]
         /\ DiffClauses(ctx.a, ctx.b, ctx.o, Rec.diff)
+        /\ (Len(Rec.diff) >= 2 => PrintT(<<"JDV-STAT", "multi_hunk_diffs", 1>>))
+        /\ (Rec.diff # <<>> => PrintT(<<"JDV-STAT", "nontrivial", 1>>))
      ELSE
         /\ Check(~Judge("C01"), "C01", "diff-call")
         /\ Check(~Judge("C13"), "C13", "diff-call")
